@@ -4,15 +4,17 @@ set -eu
 cd "$(dirname "$0")/.."
 export CARGO_NET_OFFLINE=true
 mkdir -p build
+PWD_VERIF="$(pwd)"
 python3 tools/gen_lib_manifest.py
-[ -f harness/Cargo.lock ] || cp /repo/Cargo.lock harness/Cargo.lock
+REPO="${ZV_REPO:-/repo}"
+[ -f harness/Cargo.lock ] || cp "$REPO/Cargo.lock" harness/Cargo.lock
 (
   flock 9
   if ! (cd harness && cargo build --release --offline -q) >build/build-harness.log 2>&1; then
     cat build/build-harness.log; echo "harness build failed"; exit 1
   fi
   # the real binary, hooks compiled in but inert (no harness installed): used by binbox
-  if ! (cd /repo && RUSTFLAGS="--cfg zinoma_verif -Awarnings" cargo build --release --offline -q --target-dir /verif/build/target-bin) >build/build-bin.log 2>&1; then
+  if ! (cd "$REPO" && RUSTFLAGS="--cfg zinoma_verif -Awarnings" cargo build --release --offline -q --target-dir "$PWD_VERIF/build/target-bin") >build/build-bin.log 2>&1; then
     cat build/build-bin.log; echo "binary build failed"; exit 1
   fi
 ) 9>build/.lock
